@@ -194,6 +194,8 @@ def generate(rng, tier, seed):
             cases.append(c)
             got += 1
     cases += [gen_quad_case(rng, f"c09_{seed}_q{k}") for k in range(n // 3)]
+    for k in range(max(6, n // 5)):
+        cases += gen_capture_cases(rng, f"c09_{seed}_cap{k}")
     from .witness import f4_case
     cases.append(f4_case(f"c09_{seed}_witnessF4"))
     from .witness import f22_case
@@ -202,6 +204,64 @@ def generate(rng, tier, seed):
 
 
 _groups = {}
+
+
+def gen_capture_cases(rng, name):
+    """A sub-graph that reads ports of the enclosing graph WITHOUT receiving them as arguments (captures): two different elements
+    of one list output (same schema), or an element and an ordinary port. Wired inline, nested and nested twice; the three
+    recorded streams must be identical (differential only - no model)."""
+    from .prog import Case, S
+    end = rng.choice([20, 30])
+    base = Case(name, 0, end)
+    base.scripts[1] = [(t, t * 3 + 1) for t in sorted(rng.sample(range(0, end), rng.choice([4, 8, 12])))]
+    sc, v = [], 10
+    for t in sorted(rng.sample(range(0, end), rng.choice([6, 10, 15]))):
+        ops = []
+        for k in rng.sample([0, 1, 2], rng.choice([1, 1, 2, 3])):
+            v += 7
+            ops.append(f"[{k}]={v}")
+        sc.append(f"{t}|" + ",".join(ops))
+    base.cscripts[2] = sc
+    i, j = rng.sample([0, 1, 2], 2)
+    second = rng.choice(["e1", "e1", "x"])        # two projections of ONE output, or a projection and another port
+    body = [S("u", "add3", "p0", "p1", "p2", uid=100), S("v", "sample", "p1", "p2", uid=101), S("w", "add2", "u", "v", uid=102), S("", "RET", "w")]
+    if rng.random() < 0.4:
+        body = [S("u", "add2", "p1", "p0", uid=100), S("v", "add2", "p2", "p0", uid=101), S("w", "add2", "u", "v", uid=102), S("", "RET", "w")]
+    base.graphs["sub0"] = body
+    out = []
+    for tag, depth in (("inl", 0), ("nst", 1), ("deep", 2)):
+        c = base.clone() if hasattr(base, "clone") else None
+        import copy
+        c = copy.deepcopy(base)
+        c.name = f"{name}_{tag}"
+        c.graphs["main"] = [S("x", "src", uid=1, mode=1), S("l", "csrc", shape="tsl", uid=2), S("e0", "elem", "l", str(i)), S("e1", "elem", "l", str(j)),
+                            S("r", "inline" if depth == 0 else "nested", "x", sid=0, cap=f"e0,{second}", depth=depth), S("", "rec", "r", uid=50)]
+        c.meta.update(kind="capture", group=name, variant=tag)
+        out.append(c)
+    return out
+
+
+_cap_groups = {}
+
+
+def check_capture(case, tr):
+    res = Result(signature=case.text().split("\n", 1)[1])
+    if tr.build_error or not tr.runs or tr.runs[0].error:
+        res.violations.append(Violation(f"build/run failed: {tr.build_error or (tr.runs[0].error if tr.runs else 'no run')}"))
+        return res
+    mine = {u: v for u, v in rec_streams(tr.runs[0]).items() if u in (50, 100, 101, 102)}
+    grp = _cap_groups.setdefault(case.meta["group"], {})
+    pairs = 0
+    for tag, other in grp.items():
+        pairs += 1
+        if other != mine:
+            bad = sorted(u for u in set(other) | set(mine) if other.get(u) != mine.get(u))
+            res.violations.append(Violation(f"sub-graph that captures two ports of the enclosing graph: variant '{case.meta['variant']}' and variant "
+                                            f"'{tag}' differ on uids {bad}: e.g. {mine.get(bad[0], [])[:3]} vs {other.get(bad[0], [])[:3]}"))
+    grp[case.meta["variant"]] = mine
+    res.counters = {"captured_port_variant_pairs": pairs, "captured_port_runs": sum(len(v) for v in mine.values())}
+    res.nontrivial = len(mine.get(50, [])) >= 3
+    return res
 
 
 def rec_streams(run, skip_uids=()):
@@ -218,6 +278,8 @@ def compare_all(case, run, mr):
 
 
 def check(case, tr):
+    if case.meta.get("kind") == "capture":
+        return check_capture(case, tr)
     if case.meta.get("witness"):
         from .witness import check_witness
         return check_witness(case, tr)
